@@ -770,7 +770,8 @@ fn s9_prepare(slot: &Slot9, s: &S9, seed: u64) {
     }
     for (i, (p, b)) in files.iter().enumerate() {
         let st = match s.dst {
-            "mixed" => ["absent", "diffsize", "samesize", "diffsize"][i % 4],
+            // z0 (0 B): different size; o1 (1 B): same size; m300: ABSENT (a big new file); d/b700: different size
+            "mixed" => ["diffsize", "samesize", "absent", "diffsize"][i % 4],
             x => x,
         };
         // an excluded path always exists on the destination with its own content (it must stay untouched)
@@ -950,6 +951,8 @@ pub fn run_c09(ctx: &Ctx) -> ! {
             scs.push(S9 { dir, dst: "mixed", flag: "delete" });
         }
         scs.push(S9 { dir: "push", dst: "diffsize", flag: "exclude" });
+        scs.push(S9 { dir: "local", dst: "absent", flag: "none" });
+        scs.push(S9 { dir: "pull", dst: "absent", flag: "none" });
     }
     if let Some(rp) = &ctx.replay {
         let v: Value = serde_json::from_slice(&std::fs::read(rp).unwrap_or_default()).unwrap_or(Value::Null);
